@@ -49,7 +49,7 @@ CLAIMED["C05"] = dict(
          "exhaustive/random chunkings of a corpus (well-formed and malformed) through the real async parser with a "
          "scripted source and executor, runs the blocking parser on the same octets, and TLC validates every read "
          "call and the equality of outcomes against Trace_Stream.",
-    note="Exhaustive chunkings only for messages <= 16 (21) octets; not-ready placement patterned beyond the model "
+    note="Exhaustive chunkings only for messages <= 16 (18) octets; not-ready placement patterned beyond the model "
          "messages. Trusted: harness sources/executor, TLC.",
     technique="TLA+ model checking of the stream design (TLC, safety + liveness) + replay of TLC schedules + TLC trace validation",
     ref="DESIGN.md section 6 C05")
